@@ -160,6 +160,12 @@ def r3(ctx):
                     cv = core(seps[0].elem)
                     ok = (cv[2] == ord(sep) if len(cv) > 2 and isinstance(cv[2], int) else const_str(seps[0].elem) == sep)
                     cd = seps[0].conds
+                    outv = core(rv[0][0])
+                    if ok and len(cd) == 1 and cd[0][1] is False and match(core(cd[0][0]), Call('String::is_empty', Pred(lambda u: core(u) == outv))) and outv[0] == 'var':
+                        # `if !out.is_empty() { out.push_str(sep) }`: "something was pushed before" -- every element pushed is the text of a
+                        # Character, which is never empty, so this is "not the first element"
+                        ctx.require(True, b, 'shape|' + fn.rsplit('::', 1)[-1], '%s = the non-whitespace characters of CS::new(s) joined with "%s"' % (fn, sep), None)
+                        continue
                     ok = ok and len(cd) == 1 and cd[0][1] is False and core(cd[0][0])[0] == 'var'
                     if ok:
                         fl = core(cd[0][0])[2]
